@@ -33,7 +33,8 @@ def make_spec(rng):
     sh = spec["shape"]
     sh["structures_as"] = rng.choice(["dict", "dict", "list", "path"])
     sh["dirty"] = rng.sample(["shuffle_cols", "extra_col", "missing_measure", "bom", "str_numbers", "categorical", "dup_ids",
-                              "int_as_float", "index_named", "attrs", "nulls_in_ids"], rng.choice([0, 0, 1, 1, 2]))
+                              "int_as_float", "index_named", "attrs", "nulls_in_ids", "empty_strings", "padded_numbers", "mixed_none_nan", "id_as_text"],
+                             rng.choice([0, 0, 1, 1, 2, 3]))
     # spellings of the structure document that the JSON schema accepts besides the canonical one
     sh["structure_dialect"] = rng.sample(["legacy_type_key", "legacy_viral_role", "referenced_structures", "descriptions"], rng.choice([0, 0, 1, 1, 2, 3]))
     if rng.random() < 0.3:
@@ -87,6 +88,20 @@ def _dirty(df, kinds, comps, rng):
         elif k == "attrs":
             df = df.copy()
             df.attrs["origin"] = {"who": "caller"}
+        elif k == "empty_strings" and "Me_1" in df.columns:
+            # numbers given as text, nulls given as "" (what a CSV read with dtype=str and keep_default_na=False yields)
+            df = df.assign(Me_1=pd.Series(["" if pd.isna(v) else str(v) for v in df["Me_1"]], index=df.index, dtype=object))
+            if len(df) > 0:
+                df.iloc[0, df.columns.get_loc("Me_1")] = ""
+        elif k == "padded_numbers" and "Me_1" in df.columns:
+            df = df.assign(Me_1=pd.Series([None if pd.isna(v) else " %s " % v for v in df["Me_1"]], index=df.index, dtype=object))
+        elif k == "mixed_none_nan" and "Me_1" in df.columns and len(df) > 1:
+            vals = [v if not pd.isna(v) else (None if i % 2 else float("nan")) for i, v in enumerate(df["Me_1"])]
+            vals[0] = None
+            vals[-1] = float("nan")
+            df = df.assign(Me_1=pd.Series(vals, index=df.index, dtype=object))
+        elif k == "id_as_text" and "Id_1" in df.columns:
+            df = df.assign(Id_1=pd.Series([str(v) for v in df["Id_1"]], index=df.index, dtype=object))
         elif k == "nulls_in_ids" and "Id_2" in df.columns and len(df) > 0:
             df = df.copy()
             df.loc[df.index[0], "Id_2"] = None
